@@ -121,7 +121,36 @@ STUBS = {
     json.dump: Callback('json_dump', effect=fs_json_dump),
     os.replace: Callback('os_replace', effect=fs_replace),
 }
-FSKW = dict(stubs=STUBS, with_enter=with_enter, with_exit=with_exit)
+
+
+class _NativeHandle:
+    """what the fake `open` returns in the native replay: a context manager around the ghost handle"""
+
+    def __init__(self, ghost, h):
+        self.ghost, self.h = ghost, h
+
+    def __enter__(self):
+        return self.h
+
+    def __exit__(self, *exc):
+        fs_close(self.ghost, self.h)
+        return False
+
+
+def native_fs(env):
+    """native replay: the module under test gets `open`, `json`, `os` that run the same ghost code on the ghost state"""
+    import types
+
+    import bumble.keys as K
+
+    g = env['ghost']
+    K.open = lambda path, mode='r', encoding=None: _NativeHandle(g, fs_open(g, path, mode, encoding))
+    K.json = types.SimpleNamespace(load=lambda f: fs_json_load(g, f), dump=lambda obj, f, **kw: fs_json_dump(g, obj, f, **kw))
+    K.os = types.SimpleNamespace(replace=lambda src, dst: fs_replace(g, src, dst))
+
+
+FSKW = dict(stubs=STUBS, with_enter=with_enter, with_exit=with_exit, native_setup=native_fs,
+            native_patches=[('bumble.keys', 'open'), ('bumble.keys', 'json'), ('bumble.keys', 'os')])
 
 model('ghost:TmpPath', fields=dict(pid=SymStr))
 model('ghost:FilePath', fields=dict(pid=SymStr, name=SymStr), methods={'with_name': Callback('with_name', effect=fs_with_name)})
